@@ -68,6 +68,8 @@ pub use blind_retrieval::*;
 pub use blind_rotation::*;
 pub use blind_selection::*;
 pub use ciphertexts::*;
+#[cfg(poulpy_verif)]
+pub use circuits::u32::verif_u32_circuits;
 pub(crate) use circuits::*;
 pub use eval::*;
 pub use key::*;
